@@ -71,6 +71,12 @@ func runC03(r *core.Run) (bool, string) {
 		cps = append(cps, cp)
 		pkgs = append(pkgs, &gorun.Pkg{Name: cp.Name, Files: map[string]string{cp.Name + ".go": cp.Source}})
 	}
+	// the access path through which a synchronisation object is reached (rejected-or-faithful)
+	for layout := 0; layout < 4; layout++ {
+		cp := gen.ConcurrentPathsPackage(fmt.Sprintf("paths%d", layout), layout)
+		cps = append(cps, cp)
+		pkgs = append(pkgs, &gorun.Pkg{Name: cp.Name, Files: map[string]string{cp.Name + ".go": cp.Source}})
+	}
 	// shipped concurrent examples are exercised too (spawn.go / locks.go / condvar.go are in unittest; they
 	// have no closed cases, so only generated programs are compared)
 	dir := filepath.Join(r.Scratch, "c03")
